@@ -31,11 +31,45 @@ func isConst(e ast.Expr) bool {
 	return false
 }
 
+// single-value type assertions (x.(T) outside a comma-ok assignment or a type switch) panic on a mismatch
+func safeAsserts(body ast.Node) map[*ast.TypeAssertExpr]bool {
+	safe := map[*ast.TypeAssertExpr]bool{}
+	ast.Inspect(body, func(n ast.Node) bool {
+		switch v := n.(type) {
+		case *ast.AssignStmt:
+			if len(v.Lhs) == 2 && len(v.Rhs) == 1 {
+				if ta, ok := v.Rhs[0].(*ast.TypeAssertExpr); ok {
+					safe[ta] = true
+				}
+			}
+		case *ast.ValueSpec:
+			if len(v.Names) == 2 && len(v.Values) == 1 {
+				if ta, ok := v.Values[0].(*ast.TypeAssertExpr); ok {
+					safe[ta] = true
+				}
+			}
+		}
+		return true
+	})
+	return safe
+}
+
 func accesses(f *ex.File, name string, allIfs bool) []string {
-	fd := f.MustFunc(name)
+	return accessesOf(f, f.MustFunc(name), allIfs)
+}
+
+func accessesOf(f *ex.File, fd *ast.FuncDecl, allIfs bool) []string {
 	var res []string
+	if fd.Body == nil {
+		return res
+	}
+	safe := safeAsserts(fd.Body)
 	ast.Inspect(fd.Body, func(n ast.Node) bool {
 		switch v := n.(type) {
+		case *ast.TypeAssertExpr:
+			if v.Type != nil && !safe[v] {
+				res = append(res, "assert "+f.Src(v))
+			}
 		case *ast.IndexExpr:
 			res = append(res, "idx "+f.Src(v))
 		case *ast.SliceExpr:
@@ -46,7 +80,7 @@ func accesses(f *ex.File, name string, allIfs bool) []string {
 			}
 		case *ast.IfStmt:
 			c := f.Src(v.Cond)
-			if allIfs || strings.Contains(c, "len(") {
+			if allIfs || strings.Contains(c, "len(") || strings.Contains(c, "nil") {
 				res = append(res, "guard "+c)
 			}
 		case *ast.ForStmt:
@@ -124,5 +158,52 @@ func main() {
 		}
 		fmt.Printf("]\n\n")
 	}
+	// every per-type checker method of core/transaction
+	methods := map[string]bool{"SpecialContextCheck": true, "CheckTransactionPayload": true, "CheckAttributeProgram": true,
+		"CheckTransactionOutput": true, "CheckTransactionInput": true, "HeightVersionCheck": true, "CheckTransactionFee": true,
+		"CheckTransactionSize": true, "ContextCheck": true, "SanityCheck": true}
+	fmt.Printf("/-- per transaction type checker methods of core/transaction: (file : Recv.Method, accesses and guards in source order) -/\ndef txCheckers : List (String × List String) := [\n")
+	first := true
+	for _, f := range ex.ParseDir("core/transaction") {
+		for _, d := range f.AST.Decls {
+			fd, ok := d.(*ast.FuncDecl)
+			if !ok || fd.Recv == nil || !methods[fd.Name.Name] {
+				continue
+			}
+			acc := accessesOf(f, fd, false)
+			if !first {
+				fmt.Printf(",\n")
+			}
+			first = false
+			fmt.Printf("  (%s, %s)", ex.LeanStr(f.Path+" : "+ex.RecvName(fd)+"."+fd.Name.Name), ex.StrList(acc))
+		}
+	}
+	fmt.Printf("\n]\n\n")
+	// block-level and confirm / illegal-evidence validators of package blockchain
+	fmt.Printf("/-- block context, confirm and illegal-evidence validators of package blockchain -/\ndef chainCheckers : List (String × List String) := [\n")
+	first = true
+	for _, rel := range []string{"blockchain/blockvalidator.go", "blockchain/confirmvalidator.go", "blockchain/txvalidator.go"} {
+		f := ex.Parse(rel)
+		for _, d := range f.AST.Decls {
+			fd, ok := d.(*ast.FuncDecl)
+			if !ok {
+				continue
+			}
+			acc := accessesOf(f, fd, false)
+			if len(acc) == 0 {
+				continue
+			}
+			if !first {
+				fmt.Printf(",\n")
+			}
+			first = false
+			n := fd.Name.Name
+			if r := ex.RecvName(fd); r != "" {
+				n = r + "." + n
+			}
+			fmt.Printf("  (%s, %s)", ex.LeanStr(rel+" : "+n), ex.StrList(acc))
+		}
+	}
+	fmt.Printf("\n]\n\n")
 	ex.Footer("C03")
 }
